@@ -1,7 +1,7 @@
 from common import *
 
 PROPERTY = "C10"
-QUICK_SAMPLE = 30
+QUICK_SAMPLE = 24
 A = "poulpy-cpu-avx/src/znx_avx"
 X = "core::arch::x86_64::"
 STUBS = [(X + "_mm256_sllv_epi64", "crate::stubs::mm256_sllv_epi64"), (X + "_mm256_srlv_epi64", "crate::stubs::mm256_srlv_epi64"),
@@ -53,8 +53,8 @@ def instances(tier, seed):
                     out.append(Instance(crate="hk_avx", family="avx.conv_by_const_2coeffs" if two else "avx.conv_by_const_1coeff", name=f"c10_conv{'2' if two else '1'}_as{a_s}_bs{bs}_k{k}",
                                         call=f"crate::c10::conv_by_const::<{a_s}, {bs}, {8*a_s+16}, {bool_rs(two)}>({k})", unwind=8 * a_s + 40,
                                         params={"kernel": "conv_by_const", "a_size": a_s, "b_size": bs, "k": k, "two_coeffs": two}, symbolic=["a lanes (i32 range)", "b scalars |b|<2^15", "prior dst"], stubs=STUBS,
-                                        functions=[f"{C}::i64_convolution_by_{'real_const_2coeffs' if two else 'const_1coeff'}_avx"], timeout=1200,
-                                        core=((a_s, bs) in ((3, 3), (1, 3)) and k in (0, 2) and not two) or ((a_s, bs) == (2, 2) and k == 1)))
+                                        functions=[f"{C}::i64_convolution_by_{'real_const_2coeffs' if two else 'const_1coeff'}_avx"], timeout=500,  # (3,3,k>=2) needs ~20 min: sampled only, UNDECIDED at the cap
+                                        core=((a_s, bs) == (1, 3) and k in (0, 2) and not two) or ((a_s, bs, k) == (3, 3, 0) and not two) or ((a_s, bs) == (2, 2) and k == 1)))
     for nn in (8, 16):
         for rows in (1, 2, 3):
             for blk in range(nn // 8):
